@@ -85,3 +85,73 @@ fn bm_formula() {
     assert!(s == th.sin() * r);
     kani::cover!(true, "bm_formula reached its end");
 }
+
+fn anyv<const D: usize>() -> Vector<Zt, D> { Vector::from_array(core::array::from_fn(|_| anyz())) }
+fn anym2() -> SquareMatrix<Zt> {
+    let mut m = SquareMatrix::new_zeros_from_num(&Zt(0), 2);
+    m[(0, 0)] = anyz(); m[(0, 1)] = anyz(); m[(1, 0)] = anyz(); m[(1, 1)] = anyz();
+    m
+}
+/// C10 cross-check (bounded: L = 2, D = 2, 8-bit ring): k_l = sum_l' q_l' * (pref * Qti[l][l']) - u_l' * Linv[l][l'],  shift_l = sum_l' u_l' * Linv[l][l'].
+/// Gives a verdict (with a concrete input) when an edit restructures the iterator chain so that the Verus overlay no longer fits.
+#[kani::proof]
+#[kani::unwind(5)]
+fn mom_l2_d2() {
+    let v = anyz(); let lambda = anyz();
+    let qti = anym2(); let li = anym2();
+    let q = vec![anyv::<2>(), anyv::<2>()];
+    let u = vec![anyv::<2>(), anyv::<2>()];
+    let k = compute_loop_momenta(&v, &lambda, &qti, &q, &li, &u);
+    let sh = compute_only_shift(&li, &u);
+    let pref = (v / lambda / Zt(2)).sqrt();
+    assert!(k.len() == 2 && sh.len() == 2);
+    let mut l = 0;
+    while l < 2 {
+        let mut c = 0;
+        while c < 2 {
+            let mut e = Zt(0); let mut s = Zt(0);
+            let mut lp = 0;
+            while lp < 2 {
+                e = e + q[lp][c] * (pref * qti[(l, lp)]) - u[lp][c] * li[(l, lp)];
+                s = s + u[lp][c] * li[(l, lp)];
+                lp += 1;
+            }
+            assert!(k[l][c] == e);
+            assert!(sh[l][c] == s);
+            c += 1;
+        }
+        l += 1;
+    }
+    kani::cover!(true, "mom_l2_d2 reached its end");
+}
+/// C09 cross-check (bounded: E = 2, L = 2, D = 2, 8-bit ring): u_l = sum_e shift_e * (s_el * x_e);
+/// v = sum_e x_e (m_e^2 + p_e.p_e) - sum_l (u_l.u_l) Linv[l][l] - 2 (u_0.u_1) Linv[0][1]
+#[kani::proof]
+#[kani::unwind(5)]
+fn uv_e2_l2_d2() {
+    let x = [anyz(), anyz()];
+    let rows: [[isize; 2]; 2] = core::array::from_fn(|_| core::array::from_fn(|_| { let s: i8 = kani::any(); kani::assume(s >= -1 && s <= 1); s as isize }));
+    let sig: Vec<Vec<isize>> = vec![rows[0].to_vec(), rows[1].to_vec()];
+    let p0 = anyv::<2>(); let p1 = anyv::<2>();
+    let shifts: Vec<&Vector<Zt, 2>> = vec![&p0, &p1];
+    let masses = [anyz(), anyz()];
+    let li = anym2();
+    let u = compute_u_vectors(&x[..], &sig, &shifts);
+    assert!(u.len() == 2);
+    let mut l = 0;
+    while l < 2 {
+        let mut c = 0;
+        while c < 2 {
+            let want = p0[c] * (Zt(rows[0][l] as i8) * x[0]) + p1[c] * (Zt(rows[1][l] as i8) * x[1]);
+            assert!(u[l][c] == want);
+            c += 1;
+        }
+        l += 1;
+    }
+    let v = compute_v_polynomial(&x[..], &u, &li, &shifts, &masses[..]);
+    let dot = |a: &Vector<Zt, 2>, b: &Vector<Zt, 2>| a[0] * b[0] + a[1] * b[1];
+    let want = (masses[0] * masses[0] + dot(&p0, &p0)) * x[0] + (masses[1] * masses[1] + dot(&p1, &p1)) * x[1]
+        - dot(&u[0], &u[0]) * li[(0, 0)] - dot(&u[1], &u[1]) * li[(1, 1)] - Zt(2) * dot(&u[0], &u[1]) * li[(0, 1)];
+    assert!(v == want);
+    kani::cover!(true, "uv_e2_l2_d2 reached its end");
+}
